@@ -375,6 +375,49 @@ func c17RealClock(run *ev.Run) (map[string]any, error) {
 	return res, nil
 }
 
+// c17ManyNames: generations for n different account names are prepared on one instance and left to time out; afterwards
+// a new generation must be able to start for each of these names and for a name never seen. (How many generations may be
+// active at once is not this property's business: only the prepares after the timeout are judged.)
+func c17ManyNames(run *ev.Run, n int) (map[string]any, error) {
+	extra := map[uint64]string{}
+	for _, id := range []uint64{1, 3, 4} {
+		extra[id] = fmt.Sprintf("%s:%d", rig.PeerName(id), 8000+id)
+	}
+	c, err := rig.NewCluster(rig.ClusterOpts{IDs: []uint64{c17Self}, ExtraPeers: extra, GenTimeout: c17Timeout})
+	if err != nil {
+		return nil, err
+	}
+	defer c.Close()
+	node := c.Nodes[c17Self]
+	parts := make([]*core.Endpoint, len(c17Participants))
+	for i, id := range c17Participants {
+		parts[i] = &core.Endpoint{ID: id, Name: rig.PeerName(id), Port: uint32(8000 + id)}
+	}
+	name := func(i int) string { return fmt.Sprintf("%s/many-%d", rig.DistWallet, i) }
+	started := 0
+	for i := 0; i < n; i++ {
+		if err := node.RecvPrepare(rig.PeerName(1), name(i), 2, parts); err == nil {
+			started++
+		}
+	}
+	node.Rig.RealProcess.VerifAdvanceClock(2 * c17Timeout)
+	restarted := 0
+	for i := 0; i <= n; i++ {
+		if err := node.RecvPrepare(rig.PeerName(1), name(i), 2, parts); err != nil {
+			what := "whose generation has timed out"
+			if i == n {
+				what = "that was never used"
+			}
+			run.Violate("many-names:prepare-after-timeout-refused",
+				fmt.Sprintf("%d generations (different account names) were prepared on one instance (%d started) and left to time out; after the timeout a prepare for the name %s (%s) is refused: %v", n, started, name(i), what, err),
+				map[string]any{"check": "C17", "many_names": n})
+			break
+		}
+		restarted++
+	}
+	return map[string]any{"names": n, "started": started, "started_again_after_timeout": restarted}, nil
+}
+
 // C17 explores the session lifecycle of one instance.
 func C17(tier string) int {
 	run := ev.NewRun("C17", tier, "model_checking")
@@ -439,6 +482,15 @@ func C17(tier string) int {
 		run.HarnessErr = err
 		return run.Finish()
 	}
+	manyN := 100
+	if tier == "thorough" {
+		manyN = 2000
+	}
+	many, err := c17ManyNames(run, manyN)
+	if err != nil {
+		run.HarnessErr = err
+		return run.Finish()
+	}
 	conc, err := c17Concurrent(run, time.Now().Add(budget))
 	if err != nil {
 		run.HarnessErr = err
@@ -451,12 +503,13 @@ func C17(tier string) int {
 	run.Coverage = map[string]any{
 		"concurrent_delivery":           conc,
 		"real_clock":                    realTime,
+		"many_account_names":            many,
 		"states":                        r.States,
 		"transitions":                   r.Transitions,
 		"traces_validated_against_impl": r.Transitions,
 		"evaluations":                   r.Transitions + concExecs,
 		"distinct_nontrivial":           r.States,
-		"rule":                          "BFS over event sequences delivered to one real instance (id 2; configured peers 1..4; listed participants 1,2,3; peer 4 is configured but not a participant) through its real receiver handler: prepare/execute/contribute(from 1,3,4)/commit/abort for two account names and clock advances of 2 h, 1 h + 300 ms and 50 min against a 1 h timeout (a session is expired exactly when the advances since its prepare exceed the timeout); peers' messages carry valid polynomials, outbound contributions are answered by virtual peers; a state is the instance's session table for the two names, account existence and the harness's own record of who contributed; lifecycle monitors from the property text are evaluated on every transition",
+		"rule":                          "BFS over event sequences delivered to one real instance (id 2; configured peers 1..4; listed participants 1,2,3; peer 4 is configured but not a participant) through its real receiver handler: prepare/execute/contribute(from 1,3,4)/commit/abort for two account names and clock advances of 2 h, 1 h + 300 ms and 50 min against a 1 h timeout (a session is expired exactly when the advances since its prepare exceed the timeout); peers' messages carry valid polynomials, outbound contributions are answered by virtual peers; a state is the instance's session table for the two names, account existence and the harness's own record of who contributed; lifecycle monitors from the property text are evaluated on every transition; plus: generations for many different names (see many_account_names) are left to time out, after which a generation for each of the names and for a fresh one must start",
 		"samples":                       samples.List(),
 		"exhaustive":                    !r.BudgetHit,
 		"depth_completed":               r.DepthDone,
@@ -478,6 +531,7 @@ func init() {
 			Concurrent *c17ConcScenario `json:"concurrent"`
 			Choices    []int            `json:"choices"`
 			PerG       bool             `json:"goroutine_mode"`
+			ManyNames  int              `json:"many_names"`
 		}
 		if err := json.Unmarshal(raw, &rp); err != nil {
 			fmt.Println(err)
@@ -485,6 +539,21 @@ func init() {
 		}
 		if rp.Concurrent != nil {
 			return c17ReplayConcurrent(*rp.Concurrent, rp.Choices, rp.PerG)
+		}
+		if rp.ManyNames > 0 {
+			run := ev.NewRun("C17", "replay", "model_checking")
+			res, err := c17ManyNames(run, rp.ManyNames)
+			if err != nil {
+				fmt.Println(err)
+				return 2
+			}
+			fmt.Printf("  %v\n", res)
+			if res["started_again_after_timeout"].(int) <= rp.ManyNames {
+				fmt.Println("  VIOLATED: a prepare after the timeout was refused")
+				return 1
+			}
+			fmt.Println("  no violation on replay")
+			return 0
 		}
 		var serial atomic.Uint64
 		w, err := newC17Worker(&serial)
